@@ -5,6 +5,7 @@ CONSTANTS
   Cap = 512
   Swapped = FALSE
   KeepLen = FALSE
+  SessShared = FALSE
 INIT Init
 NEXT Next
 INVARIANT ModelSane
